@@ -474,6 +474,8 @@ class Interp:
         sub.in_spec = self.in_spec
         sub.kdepth = self.kdepth
         sub.binders = list(self.binders)
+        dl = getattr(self, 'dict_log', None)
+        sub.dict_log = [(r, list(e)) for r, e in dl] if dl is not None else None
         memo: Dict[int, Any] = {}
         nfr = [f.clone(memo) for f in frames]
         return sub, nfr
@@ -704,12 +706,25 @@ class Interp:
 
     def dict_facts(self, r, T):
         st = self.st
-        st.fact(st.D_n[r] >= 0)
+        self.dict_wf(r)
         eT = T[1] if T and T[0] == 'dict' else None
         if eT is not None and eT[0] != 'any':
             k = z3.String('k!t')
             v = st.D_val[r][k]
             st.fact(z3.ForAll([k], z3.Implies(st.D_has[r][k], self.conforms(v, eT)), patterns=[v]))
+
+    def dict_wf(self, r):
+        """Well-formedness of any dict (true of every real dict; the abstract operations keep
+        (has, keys, n) consistent with it): the insertion-order key list enumerates exactly the keys."""
+        st = self.st
+        st.fact(st.D_n[r] >= 0)
+        i = z3.Int('i!w')
+        kw = z3.String('k!w')
+        keys, has, n = st.D_key[r], st.D_has[r], st.D_n[r]
+        st.fact(z3.ForAll([i], z3.Implies(z3.And(0 <= i, i < n), has[keys[i]]), patterns=[keys[i]]))
+        st.fact(z3.ForAll([kw], z3.Implies(has[kw], z3.And(0 <= dict_pos(keys, kw), dict_pos(keys, kw) < n,
+                                                           keys[dict_pos(keys, kw)] == kw)),
+                          patterns=[has[kw]]))
 
     # ---------------------------------------------------------------- lifting python constants
     def lift(self, o) -> SV:
@@ -949,6 +964,39 @@ class Interp:
         """Snapshot of a heap list as an iteration segment."""
         return ('heap', r, T, self.st.L_el[r], self.st.L_len[r])
 
+    def concretize(self, segs):
+        """Small-scope mode (refutation search only): a symbolic-length segment is split into the
+        cases length = 0..bound and unrolled, so that loops and quantifiers become finite."""
+        B_ = self.shared.get('bound')
+        if B_ is None:
+            return segs
+        out = []
+        for seg in segs:
+            if seg[0] in ('item',):
+                out.append(seg)
+                continue
+            if seg[0] == 'comp' and not z3.is_true(z3.simplify(seg[1].cond)):
+                out.append(seg)
+                continue
+            try:
+                n = z3.simplify(self.seg_length(seg))
+            except Unsupported:
+                out.append(seg)
+                continue
+            if z3.is_int_value(n):
+                k = n.as_long()
+            else:
+                k = None
+                for cand in range(B_ + 1):
+                    if self.decide(n == cand):
+                        k = cand
+                        break
+                if k is None:
+                    raise Infeasible()
+            for i in range(k):
+                out.append(('item', self.seg_element(seg, z3.IntVal(i))))
+        return out
+
     def dict_seg(self, kind, r, T):
         st = self.st
         return (kind, r, T, st.D_key[r], st.D_val[r], st.D_has[r], st.D_n[r])
@@ -967,6 +1015,12 @@ class Interp:
         return comp_sum(z3.IntVal(c.idx), *self.ctx_args(c))
 
     def segments(self, v: SV) -> List[tuple]:
+        segs = self._segments(v)
+        if self.shared.get('bound') is not None:
+            return self.concretize(segs)
+        return segs
+
+    def _segments(self, v: SV) -> List[tuple]:
         """Iteration segments of an iterable value."""
         if v.k == 'tuple':
             return [('item', x) for x in v.py]
@@ -1045,6 +1099,12 @@ class Interp:
     def dict_set(self, r, key, v: SV, T=None):
         st = self.st
         b = self.box(v)
+        log = getattr(self, 'dict_log', None)
+        if log is not None:
+            for (racc, entries) in log:
+                if racc.eq(r):
+                    entries.append((key, b))
+                    return
         vT = T[1] if T and T[0] == 'dict' else None
         if vT is not None and vT[0] != 'any':
             g = self.conforms(b, vT)
@@ -1076,9 +1136,15 @@ class Interp:
     def key_str(self, k: SV, where='dict key'):
         if k.k == 'str':
             return k.e
+        if k.k == 'none':
+            return SVAL(NONE_KEY)
         if k.k == 'val':
             if self.decide(Val.is_s(k.e)):
                 return Val.sv(k.e)
+            if self.decide(k.e == Val.none):
+                # None used as a dict key: represented by a reserved string no real key contains
+                self.st.notes.append('None used as a dict key is modelled by a reserved string')
+                return SVAL(NONE_KEY)
             raise Unsupported('non-string dict key')
         raise Unsupported(f'non-string dict key ({k.k}) in {where}')
 
@@ -1524,6 +1590,10 @@ class Interp:
         st = self.st
         if seg is None:
             seg = self.heap_seg(lst.e, lst.T)
+        if self.shared.get('bound') is not None:
+            items = self.concretize([seg])
+            if all(i[0] == 'item' for i in items):
+                return z3.Or(*[self.equal(x, i[1]) for i in items]) if items else z3.BoolVal(False)
         j = z3.Int(f'j!c{self.kdepth}')
         self.kdepth += 1
         try:
@@ -2133,7 +2203,17 @@ class Interp:
     def ex_AnnAssign(self, s, fr):
         if s.value is None:
             return
-        self.assign(s.target, self.ev(s.value, fr), fr)
+        v = self.ev(s.value, fr)
+        # an annotated *fresh, empty* container takes the annotated element type: later stores are
+        # checked against it (type:* obligations) and reads may rely on it
+        T = annotation_type(s.annotation)
+        if T is not None:
+            if v.k == 'ref' and v.cls == 'dict' and v.T is None and T[0] == 'dict' and self.is_fresh(v.e) \
+                    and z3.is_int_value(z3.simplify(self.st.D_n[v.e])):
+                v = SV('ref', v.e, cls='dict', T=T)
+            elif v.k == 'pylist' and v.py.T is None and T[0] == 'list' and not v.py.segs:
+                v.py.T = T
+        self.assign(s.target, v, fr)
 
     def ex_AugAssign(self, s, fr):
         t = s.target
@@ -2643,9 +2723,16 @@ class Interp:
                 raise Unsupported(f'loop appends to `{n}` which is not a local list')
         acc_syms = {n: st.fresh('acc', S) for n in str_acc}
         markers = {n: ('marker', n) for n in list_acc}
+        # local dicts allocated in this call that the body stores into: name[key] = value
+        dict_acc = {}
+        for n in sorted(subscript_store_names(body_src)):
+            v = fr.lookup(n)
+            if v is not None and v.k == 'ref' and v.cls == 'dict' and self.is_fresh(v.e):
+                dict_acc[n] = v
 
         def body(sub, nfr, x):
             f0 = nfr[0]
+            sub.dict_log = [(v.e, []) for v in dict_acc.values()]
             for n, s in acc_syms.items():
                 f0.locals[n] = mk_str(s)
             for n in list_acc:
@@ -2656,7 +2743,9 @@ class Interp:
             except ContinueEx:
                 pass
             return NONE
+        saved_log = getattr(self, 'dict_log', None)
         K, length, paths = self.summarize(seg, [fr], body)
+        self.dict_log = saved_log
         ft, exits = [], []
         for p in paths:
             kind = p['out'][0]
@@ -2725,10 +2814,54 @@ class Interp:
             val = self.merge_values(cases)
             c = self.register_comp(seg, K, length, cond, val, 'list')
             before.py.segs.append(('comp', c))
+        for di, (n, dv) in enumerate(dict_acc.items()):
+            stores = []
+            for p in ft:
+                for (key, val) in p['sub'].dict_log[di][1]:
+                    stores.append((self.path_cond(p), key, val))
+            if stores:
+                self.dict_accumulate(dv, seg, K, length, stores)
         # temporaries of the body are dead after the loop
         for n in assigned | tnames:
             if n not in str_acc and n not in list_acc and fr.lookup(n) is None:
                 pass
+
+    def dict_accumulate(self, d: SV, seg, K, length, stores):
+        """After `for x in seg: ... d[key(x)] = val(x) ...` on a dict allocated in this call:
+        (A) every stored key is present; (B) every present key was present before or was stored for
+        some element, and then holds one of the values stored under it (which one — the last — is
+        abstracted).  Insertion order is abstracted."""
+        st = self.st
+        r = d.e
+        has0, val0 = st.D_has[r], st.D_val[r]
+        has1 = st.fresh('has', HasArr)
+        val1 = st.fresh('val', ValArr)
+        j = z3.Int('j!a')
+        kq = z3.String('k!a')
+        pats = self.comp_patterns(seg, j)
+        for (c, key, val) in stores:
+            cj, kj = z3.substitute(c, (K, j)), z3.substitute(key, (K, j))
+            st.fact(self.qf(True, j, z3.Implies(z3.And(0 <= j, j < length, cj), has1[kj]), pats))
+        w = z3.Function(f'dw!{st.fresh_n}', S, I)
+        st.fresh_n += 1
+        wk = w(kq)
+        alts = []
+        for (c, key, val) in stores:
+            alts.append(z3.And(z3.substitute(c, (K, wk)), z3.substitute(key, (K, wk)) == kq,
+                               val1[kq] == z3.substitute(val, (K, wk))))
+        st.fact(z3.ForAll([kq], z3.Implies(has1[kq], z3.Or(
+            z3.And(has0[kq], val1[kq] == val0[kq]),
+            z3.And(0 <= wk, wk < length, z3.Or(*alts)))), patterns=[has1[kq]]))
+        st.fact(z3.ForAll([kq], z3.Implies(has0[kq], has1[kq]), patterns=[has0[kq]]))
+        n1 = st.fresh('n', I)
+        st.fact(n1 >= st.D_n[r])
+        st.set_arr('D_has', z3.Store(st.D_has, r, has1), r)
+        st.set_arr('D_val', z3.Store(st.D_val, r, val1), r)
+        st.set_arr('D_key', z3.Store(st.D_key, r, st.fresh('keys', KeyArr)), r)
+        st.set_arr('D_n', z3.Store(st.D_n, r, n1), r)
+        self.dict_wf(r)
+        st.notes.append('dict built by a loop over a symbolic sequence: insertion order and which of '
+                        'several values stored under one key survives are abstracted')
 
     def register_comp(self, seg, K, length, cond, val, kind) -> 'CompResult':
         st = self.st
@@ -2873,8 +3006,10 @@ comp_cnt = z3.Function('comp_cnt', I, I, I, I, I)
 comp_join = z3.Function('comp_join', I, I, I, I, S, S)
 comp_sum = z3.Function('comp_sum', I, I, I, I, I)
 heap_join = z3.Function('heap_join', ElArr, I, S, S)
+dict_pos = z3.Function('dict_pos', KeyArr, S, I)
 py_repr = z3.Function('py_repr', Val, S)
 _MISSING = object()
+NONE_KEY = '\x00<None>\x00'
 
 
 class _SegTuple(Exception):
@@ -2941,6 +3076,33 @@ def loop_targets(body):
                 n.func.attr in ('append', 'extend') and isinstance(n.func.value, ast.Name):
             appended.add(n.func.value.id)
     return assigned, appended
+
+
+def annotation_type(node):
+    """Dict[str, 'Table'] / List['Column'] / List[str] -> engine type, else None."""
+    try:
+        src = ast.unparse(node).replace("'", '').replace('"', '').replace(' ', '')
+    except Exception:
+        return None
+    if src.startswith('Dict[str,') and src.endswith(']'):
+        inner = src[len('Dict[str,'):-1]
+        if inner.isidentifier():
+            return ('dict', parse_type(inner))
+    if src.startswith('List[') and src.endswith(']'):
+        inner = src[5:-1]
+        if inner.isidentifier():
+            return ('list', parse_type(inner))
+    return None
+
+
+def subscript_store_names(body):
+    out = set()
+    for n in ast.walk(ast.Module(body=body, type_ignores=[])):
+        if isinstance(n, ast.Assign):
+            for t in n.targets:
+                if isinstance(t, ast.Subscript) and isinstance(t.value, ast.Name):
+                    out.add(t.value.id)
+    return out
 
 
 def target_names(t):
